@@ -423,7 +423,19 @@ def alphabet(ir: list, acc: list) -> list:
     return acc
 
 
+def rep_nesting(ir: list) -> int:
+    """longest chain of nested repetitions (the derivative matcher is exponential in the word length on
+    ambiguous nestings like (a+)+, so words are kept short there)"""
+    if ir[0] in ("alt", "cat"):
+        return max([rep_nesting(k) for k in ir[2]] or [0])
+    if ir[0] == "rep":
+        return 1 + rep_nesting(ir[3])
+    return 0
+
+
 def words_for(ir1: list, pats1: list, ir2: Optional[list], pats2: list, rng, n_samples: int, exhaustive: int) -> list[list]:
+    nest = max(rep_nesting(ir1), rep_nesting(ir2) if ir2 is not None else 0)
+    max_len = 12 if nest <= 1 else 8 if nest == 2 else 6
     acc1 = {}
     for i, lf in oracle_table(pats1):
         acc1.setdefault(i, []).append(lf)
@@ -436,7 +448,7 @@ def words_for(ir1: list, pats1: list, ir2: Optional[list], pats2: list, rng, n_s
             if ir is None:
                 continue
             w = sample_word(ir, pats, rng, acc)
-            if w is None or len(w) > 24:
+            if w is None or len(w) > max_len:
                 continue
             words.append(w)
             if w:
@@ -464,6 +476,8 @@ def words_for(ir1: list, pats1: list, ir2: Optional[list], pats2: list, rng, n_s
                 words.append(list(w))
     seen, out = set(), []
     for w in words:
+        if len(w) > max_len + 1:
+            continue
         k = json.dumps(w)
         if k not in seen:
             seen.add(k)
@@ -571,6 +585,17 @@ PARTY_CODE = "".join(f"class {p}(FandangoParty):\n    def __init__(self):\n     
 class Ctx:
     def __init__(self, run: Run, tier: str):
         self.run, self.tier = run, tier
+        # one report per signature and run: the first failing input of a class is the replay
+        seen: set = set()
+        orig = run.report
+
+        def report_once(signature: str, what: str, replay: dict, no_input: bool = False) -> None:
+            run.count("reported:" + signature)
+            if signature in seen:
+                return
+            seen.add(signature)
+            orig(signature, what, replay, no_input)
+        run.report = report_once  # type: ignore[method-assign]
         self.corr: list[dict] = []      # correspondence disagreements
         self.cap = current_cap()
         self.stats: dict[str, int] = {}
@@ -739,11 +764,44 @@ def gen_tokens(rng, cap: int) -> list:
     return out
 
 
+def simplify_atoms(ir: list) -> list:
+    """keep the structure, use a single regex (id 0) and plain literals: the token phase is about structure"""
+    t = ir[0]
+    if t == "re":
+        return ["re", 0]
+    if t in ("alt", "cat"):
+        return [t, ir[1], [simplify_atoms(k) for k in ir[2]]]
+    if t == "rep":
+        return ["rep", ir[1], ir[2], simplify_atoms(ir[3]), ir[4], ir[5]]
+    return ir
+
+
 def token_phase(ctx: Ctx, n_cases: int) -> None:
     run = ctx.run
     rng = run.rng("tokens")
     pats = ["[a-z]+"]
-    cases = [gen_tokens(rng, ctx.cap) for _ in range(n_cases)]
+    cases = [gen_tokens(rng, ctx.cap) for _ in range(n_cases // 2)]
+    # the other half: the printed form of a node with at most one token deleted / duplicated / replaced
+    seeds = []
+    for _ in range(n_cases - len(cases)):
+        g = Gen(rng, ctx.cap, parties=True)
+        g.pats = list(pats)
+        ir = g.node(rng.choice([1, 2, 3]), False)
+        seeds.append(ir)
+    printed = driver_ask("drv_print", [{"op": "print", "cfg": "generated", "cap": ctx.cap, "node": simplify_atoms(ir)} for ir in seeds])
+    for a in printed:
+        toks = list(a["toks"])
+        r = rng.random()
+        if toks and r < 0.7:
+            i = rng.randrange(len(toks))
+            m = rng.random()
+            if m < 0.35:
+                del toks[i]
+            elif m < 0.6:
+                toks.insert(i, toks[i])
+            else:
+                toks[i] = rng.choice(["(", ")", "|", "*", "+", "?", ["{", 2], ["{,", 1], ["nt", "<a>", None, None]])
+        cases.append(toks)
     ans = driver_ask("drv_print", [{"op": "read", "cap": ctx.cap, "toks": t} for t in cases])
     for toks, a in zip(cases, ans):
         text = render(toks, lambda lf: repr(leaf_val(lf)) if lf[0] != "i" else str(lf[1]), lambda i: "r'[a-z]+'")
@@ -884,9 +942,16 @@ def gen_spec(rng, cap: int, with_parties: bool, extras: bool) -> tuple[str, dict
             lines.append("<cnt> ::= '1' | '2' | '3'")
             lines[0] += " <cnt> <b>{int(<cnt>)}" if rng.random() < 0.6 else " <cnt> <b>{1,int(<cnt>)}"
             feats.append("computed-repetition")
+    tail = []
+    if extras and rng.random() < 0.5:
+        tail.append("where str(<b>) != 'zz'")
+        feats.append("where")
+    if extras and rng.random() < 0.25:
+        tail.append(rng.choice(["minimizing", "maximizing"]) + " len(str(<start>))")
+        feats.append("soft")
     meta["pats"] = g.pats
     meta["feats"] = feats
-    text = (PARTY_CODE if with_parties else "") + code + "\n".join(lines + defs) + "\n"
+    text = (PARTY_CODE if with_parties else "") + code + "\n".join(lines + defs + tail) + "\n"
     return text, meta
 
 
@@ -959,6 +1024,8 @@ def spec_phase(ctx: Ctx, n_cases: int, tmpdir: str) -> None:
             known_class = "C15/generator-args"
         if "computed-repetition" in meta["feats"]:
             known_class = "C15/computed-repetition"
+        if via_convert and "soft" in meta["feats"]:
+            known_class = "C15/soft-constraint-where"
         try:
             sp2 = read_real(printed)
         except Exception as e:  # noqa
@@ -977,6 +1044,11 @@ def spec_phase(ctx: Ctx, n_cases: int, tmpdir: str) -> None:
         if list(c1) != list(c2):
             run.report("C15/rules-changed", f"rules {list(c1)} re-read as {list(c2)}", replay)
             continue
+        if via_convert:
+            k1 = sorted(type(c).__name__ + ":" + c.format_as_spec() for c in sp1.constraints)
+            k2 = sorted(type(c).__name__ + ":" + c.format_as_spec() for c in sp2.constraints)
+            if k1 != k2:
+                run.report(known_class or "C15/constraints-changed", f"constraints {k1} are re-read as {k2}", replay)
         # languages rule by rule, through the verified matcher on the REAL IRs
         gj1, t1 = gio.grammar_to_json(sp1.grammar)
         gj2, t2 = gio.grammar_to_json(sp2.grammar)
@@ -1104,7 +1176,7 @@ CONS_WORDS = ["1y1", "qyq", "2z12", "11y2", "qz2q", "12z1q", "1z11", "2y2", "21y
 ATOMS = ["str(<a>) == '1'", "str(<b>) != 'y'", "int(<c>) > 1", "len(str(<start>)) > 3", "str(<a>).startswith('1')",
          "str(<start>.<b>) == 'y'", "str(<start>..<c>) == '2'", "str(<b>.<c>) == '1'", "str(<a>[0]) == '1'",
          "str(<start>[0:2]) != 'qy'", "str(<start>[1:]) == 'yq'", "str(<a>) == str(<b>)", "str(<a>) in ['1', 'q', \"'\"]",
-         "not str(<a>) == 'q'", "str(<a>) == 'it\"s'", "<a> == '1'", "str(<start>.<a>[0]) == '1'", "int(<b>.<c>) >= 2",
+         "str(<a>) == 'it\"s'", "<a> == '1'", "str(<start>.<a>[0]) == '1'", "int(<b>.<c>) >= 2",
          "|<c>| >= 1", "str(<a>) == '<b>'", "str(<a>) == '___x___'", "len(str(<a>)) == len(str(<b>))"]
 # forms whose printed text is known to be wrong (each is its own finding)
 ATOMS_LEN_STAR = ["len(*<c>) > 2", "len(*<a>.<c>) == 1", "len(*<start>.<b>) == 1"]
@@ -1114,6 +1186,8 @@ def gen_constraint(rng, depth: int = 2) -> tuple[str, list[str]]:
     """(text, features)"""
     r = rng.random()
     if depth <= 0 or r < 0.35:
+        if rng.random() < 0.12:
+            return "int(<a>) == 1", ["may-raise"]          # <a> can be 'q'
         return rng.choice(ATOMS), []
     if r < 0.42:
         return rng.choice(ATOMS_LEN_STAR), ["len-star"]
@@ -1128,18 +1202,23 @@ def gen_constraint(rng, depth: int = 2) -> tuple[str, list[str]]:
     if r < 0.80:
         body, f = gen_constraint(rng, depth - 1)
         var = rng.choice(["<x>", "x"])
-        sel = rng.choice(["*<a>", "*<start>.<a>", "*<c>", "*<start>..<c>", "*<b>.<c>"])
+        sel = rng.choice(["*<a>", "*<start>.<a>", "*<c>", "*<start>.<b>.<c>", "*<b>.<c>"])
         q = rng.choice(["all", "any"])
         atom = rng.choice([f"str({var}) != 'q'", f"int({var}) == 1" if "<c>" in sel else f"len(str({var})) >= 1", f"str({var}) == '1'"])
-        inner = atom if rng.random() < 0.6 else f"{atom} {rng.choice(['and', 'or'])} {body}"
-        return f"{q}({inner} for {var} in {sel})", f + ["quantifier"]
+        # below the top level a quantifier is a Python generator expression: keep its body on the bound
+        # variable (a search placeholder inside a generator body is a NameError today — not C15's business)
+        if depth < 2 or rng.random() < 0.6:
+            return f"{q}({atom} for {var} in {sel})", ["quantifier"]
+        return f"{q}({atom} {rng.choice(['and', 'or'])} {body} for {var} in {sel})", f + ["quantifier"]
     if r < 0.90:
         body = rng.choice(["str(<x>) != 'q'", "str(<x>) == '1'"])
         sel = rng.choice(["<a>", "<start>.<a>", "<c>"])
         q = rng.choice(["forall", "exists"])
         return f"{q} <x> in {sel}: {body}", ["legacy-quantifier"]
     a, fa = gen_constraint(rng, depth - 1)
-    return f"not ({a})" if rng.random() < 0.5 else f"({a})", fa + ["paren"]
+    if rng.random() < 0.5:
+        return f"not ({a})", fa + ["not-paren"]
+    return f"({a})", fa + ["paren"]
 
 
 def verdicts(grammar, constraint, trees_of) -> list:
@@ -1157,6 +1236,53 @@ def verdicts(grammar, constraint, trees_of) -> list:
     return out
 
 
+def operands_roundtrip(c, trees_of) -> bool:
+    """every operand of a conjunction / disjunction keeps its verdicts when printed and re-read on its own
+    (then a verdict change of the whole is due to the group being re-read as one expression)"""
+    for o in c.constraints:
+        if type(o).__name__ in ("ConjunctionConstraint", "DisjunctionConstraint"):
+            if not operands_roundtrip(o, trees_of):
+                return False
+            continue
+        try:
+            with quiet(), warnings.catch_warnings():
+                warnings.simplefilter("ignore")
+                # no consistency check: inside a quantifier the operand mentions the bound variable
+                from fandango.language.parse.parse import parse as _parse
+                go, co = _parse(CONS_GRAMMAR + "where " + o.format_as_spec() + "\n", use_cache=False, use_stdlib=False, check=False)
+                gc, _ = gio.parse_spec(CONS_GRAMMAR)
+        except Exception:  # noqa
+            return False
+        if len(co) != 1 or verdicts(gc, o, trees_of) != verdicts(go, co[0], trees_of):
+            return False
+    return True
+
+
+_Q = ("ForallConstraint", "ExistsConstraint")
+_B = ("ConjunctionConstraint", "DisjunctionConstraint")
+
+
+def diff_kinds(c1, c2, trees_of, out: set) -> None:
+    """where and how the re-read constraint differs in shape from the original:
+    not-cmp  an expression `not a OP b` re-read as the comparison `(not a) OP b` (formula_comparison: expr OP expr)
+    regroup  a conjunction/disjunction, printed in parentheses, re-read as ONE Python expression although each
+             operand on its own keeps its verdicts
+    other    anything else"""
+    n1, n2 = type(c1).__name__, type(c2).__name__
+    if n1 in _Q and n2 == n1:
+        diff_kinds(c1.statement, c2.statement, trees_of, out)
+    elif n1 in _B and n2 == n1 and len(c1.constraints) == len(c2.constraints):
+        for a, b in zip(c1.constraints, c2.constraints):
+            diff_kinds(a, b, trees_of, out)
+    elif n1 in _B and n2 in ("ExpressionConstraint", "ComparisonConstraint"):
+        out.add("regroup" if operands_roundtrip(c1, trees_of) else "other")
+    elif n1 == "ExpressionConstraint" and n2 == "ComparisonConstraint" and c1.expression.startswith("not ") \
+            and str(c2._left).startswith("not "):
+        out.add("not-cmp")
+    elif n1 != n2:
+        out.add("other")
+
+
 def constraint_phase(ctx: Ctx, n_cases: int) -> None:
     run = ctx.run
     rng = run.rng("constraints")
@@ -1171,7 +1297,9 @@ def constraint_phase(ctx: Ctx, n_cases: int) -> None:
 
     texts = [(a, []) for a in ATOMS] + [(a, ["len-star"]) for a in ATOMS_LEN_STAR] + \
             [("(str(<a>) == '1' or str(<b>) == 'y') and int(<c>) == 1", ["bool-parens"]),
-             ("forall <x> in <a>: str(<x>) == '1'", ["legacy-quantifier"])]
+             ("forall <x> in <a>: str(<x>) == '1'", ["legacy-quantifier"]),
+             ("not (int(<b>.<c>) >= 2)", ["not-paren"]),
+             ("int(<a>) == 1 or str(<b>) == 'y'", ["may-raise", "bool"])]
     for _ in range(n_cases):
         texts.append(gen_constraint(rng, 2))
     seen = set()
@@ -1198,15 +1326,18 @@ def constraint_phase(ctx: Ctx, n_cases: int) -> None:
         printed = c1.format_as_spec()
         replay = {"kind": "constraint", "spec": spec, "printed": printed}
         known = None
-        if "len-star" in feats:
+        if "len-star" in feats and "|*" in printed:
             known = "C15/len-star"
-        elif "legacy-quantifier" in feats:
-            known = "C15/legacy-quantifier"
+        # narrow: the legacy form `forall/exists <x> in <sel>:` printed as a comprehension over a bare <sel>
+        legacy_bare = "legacy-quantifier" in feats and type(c1).__name__ in ("ForallConstraint", "ExistsConstraint") \
+            and re.match(r"^(all|any)\(.* for <x> in <[^*]*\)$", printed) is not None
         try:
             with quiet(), warnings.catch_warnings():
                 warnings.simplefilter("ignore")
                 g2, cs2 = gio.parse_spec(CONS_GRAMMAR + "where " + printed + "\n")
         except Exception as e:  # noqa
+            if legacy_bare and reject_kind(e) == "syntax":
+                known = "C15/legacy-quantifier"
             run.report(known or "C15/constraint-text-rejected",
                        f"`where {text}` prints as `{printed}`, which the front end rejects ({reject_kind(e)}: {str(e)[:100]})", replay)
             continue
@@ -1221,7 +1352,14 @@ def constraint_phase(ctx: Ctx, n_cases: int) -> None:
             i = next(i for i, (x, y) in enumerate(zip(v1, v2)) if x != y)
             rp = dict(replay)
             rp["input"] = CONS_WORDS[i]
-            sig = known or ("C15/bool-operand-parens" if ("bool-parens" in feats or "paren" in feats or "bool" in feats) else "C15/constraint-verdict-changed")
+            lost_group = ("bool-parens" in feats or "paren" in feats) and " or " in text and " and " in text \
+                and printed.count("(") < text.count("(")
+            kinds: set = set()
+            diff_kinds(c1, cs2[0], trees_of, kinds)
+            sig = known or ("C15/bool-operand-parens" if lost_group else
+                            "C15/not-over-comparison" if kinds == {"not-cmp"} else
+                            "C15/bool-group-reread-as-expression" if kinds == {"regroup"} else
+                            "C15/constraint-verdict-changed")
             run.report(sig, f"`where {text}` prints as `{printed}`; on {CONS_WORDS[i]!r} the original says {v1[i]} and the re-read one {v2[i]}", rp)
         p2 = cs2[0].format_as_spec()
         if p2 != printed:
@@ -1391,11 +1529,19 @@ def main(tier: str) -> int:
                 batch = []
         if batch:
             node_phase(ctx, batch)
-        token_phase(ctx, 500 if quick else 5000)
-        literal_phase(ctx, 400 if quick else 6000)
-        spec_phase(ctx, 150 if quick else 1500, tmpdir)
-        word_phase(ctx, 40 if quick else 400)
-        constraint_phase(ctx, 120 if quick else 1500)
+        import time as _t
+        t0 = _t.time()
+        run.coverage["phase_s"] = {"nodes": round(t0 - run.t0, 1)}
+        for name, fn in (("tokens", lambda: token_phase(ctx, 500 if quick else 5000)),
+                         ("literals", lambda: literal_phase(ctx, 400 if quick else 6000)),
+                         ("specs", lambda: spec_phase(ctx, 150 if quick else 1500, tmpdir)),
+                         ("words", lambda: word_phase(ctx, 40 if quick else 400)),
+                         ("constraints", lambda: constraint_phase(ctx, 120 if quick else 1500))):
+            t1 = _t.time()
+            fn()
+            run.coverage["phase_s"][name] = round(_t.time() - t1, 1)
+            if os.environ.get("C15_TIMING"):
+                print(f"phase {name}: {run.coverage['phase_s'][name]}s", flush=True)
     finally:
         shutil.rmtree(tmpdir, ignore_errors=True)
 
